@@ -4,6 +4,7 @@ import (
 	"math"
 	"regexp"
 	"strconv"
+	"sync"
 
 	"golang.org/x/tools/go/ssa"
 )
@@ -213,7 +214,8 @@ func init() {
 	})
 }
 
-var regexpCache = map[string]*regexp.Regexp{}
+// regexpCache is shared by the engines of parallel jobs
+var regexpCache sync.Map // string -> *regexp.Regexp
 
 func init() {
 	// regexp matching of *concrete* strings is done natively (same package, same pattern text read from the Regexp
@@ -225,14 +227,16 @@ func init() {
 			if rv, ok := e.load(st, p).(*StructV); ok && len(rv.F) > 0 {
 				if ex, ok := rv.F[0].(*StrV); ok {
 					if pat, ok := ex.Concrete(); ok {
-						re := regexpCache[pat]
-						if re == nil {
+						var re *regexp.Regexp
+						if c, ok := regexpCache.Load(pat); ok {
+							re = c.(*regexp.Regexp)
+						} else {
 							var err error
 							re, err = regexp.Compile(pat)
 							if err != nil {
 								return e.mergeOutcomes(e.execFunction(fn, args, nil, st))
 							}
-							regexpCache[pat] = re
+							regexpCache.Store(pat, re)
 						}
 						return one(st, e.tb.Bool(re.MatchString(c)))
 					}
